@@ -323,7 +323,7 @@ pub fn usability_check(
     }
     let acks = crate::vt::AckLog::new();
     rl.flush(Some(acks.cb(0))).map_err(|e| format!("flush after recovery: {}", e))?;
-    match acks.wait(0, crate::sut::ACK_TIMEOUT) {
+    match acks.wait_patiently(0, crate::sut::ACK_TIMEOUT) {
         Some(crate::vt::AckEvent::Sent { ok: true, .. }) => {}
         other => return Err(format!("flush after recovery not acknowledged Ok: {:?}", other)),
     }
